@@ -149,6 +149,17 @@ def fam_redundant_hearts():
     return out
 
 
+def fam_scale(tier):
+    """size ladders (hv/scale.py): deep stacks, many copies, many labels, many stacks, long straight programs"""
+    from . import scale
+    if tier == 'quick':
+        return [scale.deep_program(1, 17, 17), scale.deep_program(3, 65, 65), scale.deep_program(2, 16, 18),
+                scale.deep_program(4, 33, 33), '%s %s %s' % (scale.P65, P.spell(5, 65, 4), ' '.join(['항.'] * 66)),
+                scale.many_labels(17, 7), scale.many_labels(65, 5, same_heart=True), scale.straight(256),
+                scale.loop_program(100)]
+    return [t for t in scale.scale_programs('quick') if len(P.parse(t)) <= 530] + [scale.loop_program(100)]
+
+
 def fam_general(n, observers):
     out = []
     for b in bodies(G16, n):
@@ -370,6 +381,7 @@ def run_c03(tier):
         fams['chars'] = fam_chars()
         fams['labels'] = fam_labels() + fam_bigindex() + fam_highstack() + fam_redundant_hearts()
         fams['labelflow'] = labelflow_family()[::16]
+        fams['scale'] = fam_scale(tier)
         standalone = fam_templates()[::12] + fam_chars()[::9] + [g + ' ' + t for _, g in GADGETS for _, t in TRIGGERS][::2]
     else:
         fams['templates'] = fam_templates()
@@ -380,6 +392,7 @@ def run_c03(tier):
         fams['chars'] = fam_chars()
         fams['labels'] = fam_labels() + fam_bigindex() + fam_highstack() + fam_redundant_hearts()
         fams['labelflow'] = labelflow_family()
+        fams['scale'] = fam_scale(tier)
         standalone = fam_templates() + fam_chars() + fam_resume(1)
     tasks = []
     for c in chunks(standalone, 8):
